@@ -2,7 +2,8 @@
 from .common import *
 
 ARENA_PROPS = ["C01", "C02", "C03", "C04", "C06", "C07", "C08", "C09", "C10", "C11", "C12", "C18"]
-CRASH_IS_VIOLATION = {"C01", "C02", "C03", "C09", "C12", "C13", "C15", "C16"}
+# an abort / fatal signal of the code under test while a property's driver runs it is a violation of that property
+CRASH_IS_VIOLATION = {"C01", "C02", "C03", "C04", "C06", "C07", "C08", "C09", "C10", "C11", "C12", "C13", "C14", "C15", "C16", "C17", "C18", "C19", "C20"}
 
 ALLOCATOR_API_OPS = {"allocate", "allocate_zeroed", "grow", "grow_zeroed", "shrink", "deallocate"}
 TRY_WITH_OPS = {"alloc_try_with", "try_alloc_try_with", "alloc_slice_try_fill_with", "alloc_slice_try_fill_iter"}
@@ -82,6 +83,27 @@ def str_corpus(tier, seed, gens, profiles=("dbg", "rel")):
             jobs += tj("str_driver", g, tier, prof, seed, n, ["StrTrace"], max_events=25000)
     return jobs
 
+ARENA_MC = {
+    "C01": ["Arena_small_alloc", "Arena_small_realloc"],
+    "C02": ["Arena_small_realloc"],
+    "C03": ["Arena_small_limit", "Arena_small_alloc"],
+    "C04": ["Arena_small_alloc"],
+    "C06": ["Arena_small_limit"],
+    "C07": ["Arena_small_limit"],
+    "C08": ["Arena_small_limit"],
+    "C09": ["Arena_small_limit", "Arena_small_alloc"],
+    "C10": ["Arena_small_alloc"],
+    "C11": ["Arena_small_trywith"],
+    "C12": ["Arena_small_realloc"],
+    "C18": ["Arena_small_limit"],
+}
+
+def arena_mc(pid, tier):
+    # breadth-first exploration of Arena.tla, bounded by time (the small-scope state spaces run to tens of
+    # millions of states): quick 45 s per config, thorough 15 min
+    t = 66 if tier == "quick" else 905   # TLC reports progress once a minute
+    return [dict(module="Arena", cfg=c, workers=8, timeout=t, bounded=True, mem="8g", tier=tier) for c in ARENA_MC[pid]]
+
 def plan_for(pid, tier, seed):
     if pid == "C05":
         from . import borrow
@@ -100,7 +122,7 @@ def plan_for(pid, tier, seed):
         jobs = []
         for prof in ("dbg", "rel"):
             jobs += tj("multi_driver", "multi", tier, prof, seed, 2 if tier == "quick" else 4, ["ArenaMonitor", "ArenaTrace"],
-                       monitors_sync=["ThreadsTrace"])
+                       monitors_sync=["ThreadsTrace"], monitors_iso=["Isolation"])
         return dict(level="model_checking", traces=jobs, special=[],
                     mc=[dict(module="Threads", cfg="Threads", workers=8, timeout=900)],
                     assumptions=["TLC", "footer-store hook (__verif::footer_store) sees every store into a chunk footer",
@@ -120,7 +142,13 @@ def plan_for(pid, tier, seed):
                                  "the reference semantics Coll.tla (cross-validated: the same formulas accept std's own Vec/Box on the same programs)",
                                  "Tracked elements' drop ledger (harness)"])
     if pid in ARENA_PROPS:
-        return dict(level="model_checking", mc=[], traces=arena_corpus(tier, seed, ARENA_GENS[pid]), special=[],
+        from . import replay
+        gens = {"C01": ["ArenaGen_realloc5"], "C02": ["ArenaGen_realloc5"], "C12": ["ArenaGen_realloc5"], "C04": ["ArenaGen_quick3"],
+                "C03": ["ArenaGen_quick3"], "C06": ["ArenaGen_quick3"], "C08": ["ArenaGen_quick3"]}.get(pid, [])
+        if tier == "thorough" and pid in ("C01", "C04", "C12"):
+            gens = gens + ["ArenaGen_quick"]
+        return dict(level="model_checking", mc=arena_mc(pid, tier), traces=arena_corpus(tier, seed, ARENA_GENS[pid]),
+                    special=[replay.make_job(g) for g in gens],
                     assumptions=["TLC and the Json/IOUtils community modules",
                                  "the harness's recording global allocator (deterministic address map)",
                                  "small-scope hypothesis for the exhaustive model runs"])
